@@ -4,6 +4,7 @@ from __future__ import annotations
 import asyncio
 import contextlib
 import hashlib
+import itertools
 import io
 import sys
 
@@ -124,6 +125,10 @@ def run_cli(case: dict):
             m.props.update({0x0009: b"\x32", 0x000A: b"\x4b", 0x0048: b"\x28", 0x0043: b"\x04", 0x0042: b"\x02", 0x0018: b"\x00", 0x00E3: bytes([1, 1]) + bytes(10)})
         recs = [M.cap_record(c, b"\x01") for c in (0x0009, 0x000A, 0x0043, 0x00E3, 0x0039)] + [M.cap_record(0x0048, b"\x02"), M.cap_record(0x0210, b"\x07"),
                                                                                                M.cap_record(0x0210, b"\x01"), M.cap_record(0x0214, b"\x01"), M.cap_record(0x0215, b"\x01")]
+        if case.get("caps_nocustom"):
+            # a unit whose capabilities list discrete fan speeds only (0x0210 = 5); such units still report 101 ("fixed") or
+            # other in-between values in some modes
+            recs = [r for r in recs if r[:2] != bytes([0x10, 0x02])] + [M.cap_record(0x0210, b"\x05")]
         m.cap_pages = [(recs, b"")]
         dev = SimDevice(loop, version=case.get("version", 2), device_id=77, ac=m, token=TOKEN, key=KEY)
         net.listen("10.0.0.9", 6444, dev)
@@ -200,12 +205,34 @@ def check_case(case: dict):
     else:
         for k, v in exp.items():
             if got[k] != v:
+                if (k == "fan" and "fan" not in overlay and case.get("capabilities") and case.get("caps_nocustom") and want_toggles == 1
+                        and before.fan not in ENUMS["fan_speed"].values()):
+                    # (recorded finding: the refresh that follows a display toggle re-reads the state after the capabilities are
+                    # known and maps the reported in-between fan speed to AUTO, which is then written back)
+                    return ("valid/state/fan/after-display-toggle-without-custom-fan", f"fan: device has {got[k]!r}, expected {v!r} after {case['settings']} --capabilities (initial {before.fan!r})")
                 return (f"valid/state/{k}", f"{k}: device has {got[k]!r}, expected {v!r} after {case['settings']} (initial {getattr(before, k, None)!r})")
         if len(m.control_bodies) != 1:
             return ("valid/apply-count", f"{len(m.control_bodies)} state commands")
         if beep is not None and m.state.buzzer != beep:
             return ("valid/beep", f"buzzer {m.state.buzzer}, expected {beep}")
     caps = bool(case.get("capabilities"))
+    breeze = [(n, v) for n, v in props.items() if n in ("breezeless", "breeze_away", "breeze_mild")]
+    if len(breeze) >= 2:
+        # several breeze settings on one line (at most one of them True, and that one last): the unit ends in the one requested mode (or off),
+        # and every property written for them agrees with it
+        codes = {"breeze_away": 2, "breeze_mild": 3, "breezeless": 4}
+        trues = [n for n, v in breeze if v]
+        mode = codes[trues[0]] if trues else 1
+        for name, v in breeze:
+            if caps or name == "breeze_mild":
+                pid, want = 0x0043, bytes([mode])
+            elif name == "breeze_away":
+                pid, want = 0x0042, bytes([2 if mode == 2 else 1])
+            else:
+                pid, want = 0x0018, bytes([1 if mode == 4 else 0])
+            if m.props.get(pid) != want:
+                return (f"valid/property/{name}", f"{case['settings']}: device property {pid:#06x} is {m.props.get(pid).hex()}, expected {want.hex()} (requested breeze mode {mode})")
+        props = {n: v for n, v in props.items() if n not in codes}
     for name, v in props.items():
         if name == "vertical_swing_angle":
             pid, want = 0x0009, bytes([v])
@@ -266,18 +293,26 @@ def pair_strategy():
     return st.one_of(enum_by_name, enum_by_int, fan_raw, temp, hum, boolean, boolean)
 
 
-def _mk_valid(pairs_settings, initial, caps, version, auto=False, props_on=False):
+def _mk_valid(pairs_settings, initial, caps, version, auto=False, props_on=False, nocustom=False):
     # one pair per setting name (later duplicates dropped): the documented meaning of repeated settings is not specified
     seen, pairs, settings = set(), [], []
+    breeze_true = False
     for p, s in pairs_settings:
-        group = "breeze" if p[0].startswith("breeze") else p[0]
-        if group in seen:
+        if p[0] in seen:
             continue
-        seen.add(group)
+        if p[0].startswith("breeze"):
+            if breeze_true:
+                continue          # a breeze setting after one that switched a mode on: two modes on contradict each other, and
+                                  # whether a later "other mode off" leaves the first one on is not documented
+            breeze_true = bool(p[2])
+        seen.add(p[0])
         pairs.append(list(p))
         settings.append(s)
-    return {"kind": "valid", "pairs": pairs, "settings": settings, "initial": initial, "capabilities": caps, "version": version,
+    case = {"kind": "valid", "pairs": pairs, "settings": settings, "initial": initial, "capabilities": caps, "version": version,
             "auto": bool(auto) and version == 2, "props_on": props_on}
+    if nocustom and caps:
+        case["caps_nocustom"] = True
+    return case
 
 
 def run(ctx) -> None:
@@ -319,9 +354,35 @@ def run(ctx) -> None:
                 case = {"kind": "invalid", "settings": settings, "initial": DEFAULT_INITIAL, "capabilities": n % 3 == 0, "version": 2 + (n % 2)}
                 ctx.check(case, lambda c: _run_one(ctx, c))
     ctx.sweep("every (setting, member, case style), member integer, boolean spelling, raw fan integer, setpoint; invalid catalogue", n, True)
+    # pairs of breeze settings (at most one switched on), both orders, with and without --capabilities
+    z = 0
+    for a, b in itertools.permutations(["breeze_away", "breeze_mild", "breezeless"], 2):
+        for va, vb in ((False, True), (False, False)):
+            for caps in (False, True):
+                z += 1
+                if ctx.mine(z):
+                    case = _mk_valid([((a, "bool", va), f"{a}={va}"), ((b, "bool", vb), f"{b}={vb}")], DEFAULT_INITIAL, caps, 2, False, z % 2 == 0)
+                    ctx.check(case, lambda c: _run_one(ctx, c))
+    # --capabilities against a unit without custom fan speeds that reports an in-between fan speed: unspecified settings stay
+    for fan in (101, 50, 1, 99, 80, 102):
+        for setting in ("eco=True", "target_temperature=25.5", "power_state=False", "display_on=True", "display_on=False", "beep=True"):
+            z += 1
+            if ctx.mine(z):
+                name, val = setting.split("=")
+                kind = "num" if name == "target_temperature" else "bool"
+                pv = float(val) if kind == "num" else (val == "True")
+                case = _mk_valid([((name, kind, pv), setting)], dict(DEFAULT_INITIAL, fan=fan, display_on=True), True, 2, False, False, True)
+                ctx.check(case, lambda c: _run_one(ctx, c))
+                if name != "display_on":
+                    # ... and together with a display change (one that toggles, one that does not)
+                    for disp in (False, True):
+                        case = _mk_valid([((name, kind, pv), setting), (("display_on", "bool", disp), f"display_on={disp}")],
+                                         dict(DEFAULT_INITIAL, fan=fan, display_on=True), True, 2, False, False, True)
+                        ctx.check(case, lambda c: _run_one(ctx, c))
+    ctx.sweep("breeze pairs; --capabilities on a unit without custom fan speeds x reported fan speeds", z, True)
 
     valid = st.builds(_mk_valid, st.lists(pair_strategy(), min_size=1, max_size=3), gens.device_states(), st.booleans(), st.sampled_from([2, 2, 3]),
-                      st.sampled_from([False, False, True]), st.booleans())
+                      st.sampled_from([False, False, True]), st.booleans(), st.sampled_from([False, False, True]))
     ctx.hyp("valid argv", valid, lambda c: _run_one(ctx, c), ctx.n(3200, 128000))
     invalid = st.tuples(st.lists(pair_strategy().map(lambda t: t[1]), max_size=2), st.sampled_from(INVALID), st.integers(0, 2)).map(
         lambda t: {"kind": "invalid", "settings": (t[0][:t[2]] + [t[1]] + t[0][t[2]:]), "initial": DEFAULT_INITIAL, "capabilities": t[2] == 1,
